@@ -3,6 +3,8 @@ ddSMT."""
 import math
 import resource
 
+import random
+
 from .. import props
 from .. import refrule
 from .. import reftok
@@ -22,6 +24,11 @@ def fault_model(rng, toks, golden_slow=False):
         # CPU limit): exactly what a limit kill looks like
         cl['bug']['exit'] = rng.choice([-9, -9, -24])
     cl['hang'] = {'exit': 0, 'out': '', 'err': '', 'beh': ['hang']}
+    if random.Random(reftok.digest(toks)).random() < 0.4:
+        # the command is a wrapper script whose child inherited the pipes and
+        # blocks: killing the wrapper does not close them, reading the streams
+        # to end-of-file after the kill would block for ever
+        cl['hang']['beh'] = ['hang', 'orphan']
     cl['spin'] = {'exit': 0, 'out': '', 'err': '',
                   'beh': ['spin', rng.choice([1, 1, 2, 4])]}
     cl['alloc'] = {'exit': rng.choice([1, 134, -6]), 'out': '',
